@@ -99,6 +99,15 @@ func vThresholdCase(set, n, t int, points []uint64, tag string) {
 		}
 		tsk[j] = acc
 	}
+	// the running aggregate as second operand and receiver at once gives the same aggregate
+	for j := 0; j < n && n >= 2; j++ {
+		alt := th.Thr[j].AllocateThresholdSecretShare()
+		alt.Poly.Copy(shares[j][n-1].Poly)
+		for i := n - 2; i >= 0; i-- {
+			vAssert(th.Thr[j].AggregateShares(shares[j][i], alt, &alt) == nil, tag+"-AggregateShares-into-the-second-operand-no-error")
+		}
+		vAssertPolyQPEq(rQP, alt.Poly, tsk[j].Poly, tag+"-aggregate-independent-of-operand-order-and-receiver")
+	}
 	// every t-subset in every order
 	for _, sub := range vSubsets(n, t) {
 		for _, perm := range vPerms(t) {
